@@ -728,6 +728,20 @@ func (c *Ctx) applyContract(fr *Frame, st *State, ct *Contract, callee *ssa.Func
 			}
 		}
 	}
+	// a custom counter that the callee's postconditions speak about but that it does
+	// not update by an explicit `ghost g += e` has an unknown new value after the call
+	// (constrained by those postconditions): leaving the caller's value in place would
+	// contradict a postcondition such as ghost(g) == old(ghost(g)) + n and make
+	// everything after the call vacuously true
+	for _, cl := range ct.byKind("ensures") {
+		for _, g := range ghostNamesIn(cl.Text) {
+			if explicit[g] || g == "cpu" || g == "mem" || g == "sent" {
+				continue
+			}
+			explicit[g] = true
+			st.ghost[g] = c.decl("ghost_"+g, "Int")
+		}
+	}
 	// results
 	var res Val
 	var rvals []Val
@@ -1302,4 +1316,24 @@ func isBufferMethod(fn *ssa.Function) bool {
 		}
 	}
 	return false
+}
+
+// ghostNamesIn lists the names g of ghost(g) occurrences in a clause text.
+func ghostNamesIn(text string) []string {
+	var out []string
+	seen := map[string]bool{}
+	for i := 0; i+6 <= len(text); i++ {
+		if strings.HasPrefix(text[i:], "ghost(") && (i == 0 || !isIdentChar(text[i-1])) {
+			j := i + 6
+			k := j
+			for k < len(text) && isIdentChar(text[k]) {
+				k++
+			}
+			if k > j && k < len(text) && text[k] == ')' && !seen[text[j:k]] {
+				seen[text[j:k]] = true
+				out = append(out, text[j:k])
+			}
+		}
+	}
+	return out
 }
